@@ -76,6 +76,16 @@ def validate_sparse(seed=0, rounds=60):
         _same('tocsr', r.tocsr(), m.tocsr())
         _same('tocsc', r.tocsc(), m.tocsc())
         _same('tocoo', r.tocoo(), m.tocoo())
+        if r.nnz:
+            rc0, mc0 = r.tocoo(copy=False), m.tocoo(copy=False)
+            rmin, mmin = (rc0.col, mc0.col) if fmt == 'csr' else (rc0.row, mc0.row)
+            rmaj, mmaj = (rc0.row, mc0.row) if fmt == 'csr' else (rc0.col, mc0.col)
+            if (np.shares_memory(rc0.data, r.data), np.shares_memory(rmin, r.indices), np.shares_memory(rmaj, r.indices)) != \
+                    (np.shares_memory(mc0.data, m.data), np.shares_memory(mmin, m.indices), np.shares_memory(mmaj, m.indices)):
+                raise ModelMismatch('tocoo(copy=False) aliasing')
+            if np.shares_memory(r.tocoo().data, r.data) != np.shares_memory(m.tocoo().data, m.data) or \
+                    np.shares_memory(r.tocoo(copy=True).data, r.data) or np.shares_memory(m.tocoo(copy=True).data, m.data):
+                raise ModelMismatch('tocoo() aliasing')
         if (r.tocsr() is r) != (m.tocsr() is m) or (r.tocsc() is r) != (m.tocsc() is m):
             raise ModelMismatch("tocsr/tocsc identity")
         _same('tocoo.tocsr', r.tocoo().tocsr(), m.tocoo().tocsr())
